@@ -473,8 +473,8 @@ func (mw *msgWriter) writeHeader(key Header, values ...string) int {
 	buffer.WriteString(string(key))
 	charLength -= len(key)
 	if len(values) == 0 {
-		buffer.WriteString(":\r\n")
-		return lines + 1
+		// headers without a value are omitted: nothing is written, so no line is counted
+		return lines
 	}
 	buffer.WriteString(": ")
 	charLength -= 2
